@@ -188,6 +188,9 @@ func caseC06(c *Ctx) {
 			c.st.Count("no-result(not judged here)")
 			return
 		}
+		if out.LateEffects != "" {
+			fail("C06:effects-after-nil-return:"+mode, "the call returned nil and afterwards its goroutines still performed %s", out.LateEffects)
+		}
 		rel, _ := filepath.Rel(d.Jail, d.Target)
 		rel = filepath.ToSlash(rel)
 		bm, am := snapMap(before), snapMap(after)
